@@ -642,6 +642,45 @@ func (c *Ctx) c19Nils() {
 	}
 }
 
+// c19Redefined: Call and Func pass the parameters to the function as it is defined NOW: after a script function was
+// declared again with other parameter types (variadic element type, fixed parameter types, arity), the host's values
+// reach the new body unchanged
+func (c *Ctx) c19Redefined() {
+	vm := goat.New()
+	step := func(src string) bool {
+		if _, err := vm.Eval(fstest.MapFS{}, "main", src); err != nil {
+			c.Rep.Violate(Violation{Kind: "oracle", Cut: "redefined-function", Input: src, Impl: err.Error(), Oracle: "evaluates"})
+			return false
+		}
+		return true
+	}
+	ask := func(what, fn string, want string, args ...goat.Value) {
+		c.Rep.Oracle["redefined-function"]++
+		rets, err := vm.Call(fn, 1, args...)
+		got := fmt.Sprint(err)
+		if err == nil {
+			got = rets[0].String()
+		}
+		if got != want {
+			c.Rep.Violate(Violation{Kind: "oracle", Cut: "redefined-function", Input: what, Impl: got, Oracle: want})
+		}
+	}
+	if !step("func total(xs ...int) int {\n\ts := 0\n\tfor _, x := range xs {\n\t\ts += x\n\t}\n\treturn s\n}\nfunc first(xs ...int) int {\n\treturn xs[0]\n}\nfunc scale(k int, x int) int {\n\treturn k * x\n}\nr0 := total(1, 2)") {
+		return
+	}
+	ask("total(xs ...int) called with 1, 2", "main.total", "3", goat.Int(1), goat.Int(2))
+	if !step("func total(xs ...float64) float64 {\n\ts := 0.0\n\tfor _, x := range xs {\n\t\ts += x\n\t}\n\treturn s\n}\nfunc first(xs ...any) any {\n\treturn xs[0]\n}\nfunc scale(k float64, x float64) float64 {\n\treturn k * x\n}") {
+		return
+	}
+	ask("total redefined as (xs ...float64), called with 1.5, 2.25", "main.total", "3.75", goat.Float64(1.5), goat.Float64(2.25))
+	ask("first redefined as (xs ...any), called with 2.5", "main.first", "2.5", goat.Float64(2.5), goat.Int(1))
+	ask("scale redefined with float64 parameters, called with 0.5, 3", "main.scale", "1.5", goat.Float64(0.5), goat.Float64(3))
+	if !step("func total(k string, xs ...string) string {\n\ts := k\n\tfor _, x := range xs {\n\t\ts += x\n\t}\n\treturn s\n}\nr1 := total(\"a\", \"b\")") {
+		return
+	}
+	ask("total redefined as (k string, xs ...string)", "main.total", "xyz", goat.String("x"), goat.String("y"), goat.String("z"))
+}
+
 // c19HookErrors: a failure inside a host-supplied hook that a builtin calls back into (the yield hook behind
 // time.Sleep, VM.Yield from a native of the host) is a nested call: it surfaces as the error of the outer call
 func (c *Ctx) c19HookErrors() {
@@ -694,6 +733,7 @@ func runC19(c *Ctx) error {
 	c.c19Scripts(ns)
 	c.c19ZeroArity()
 	c.c19HookErrors()
+	c.c19Redefined()
 	c.c19Nils()
 	c.c19RoundTrips(nr)
 	return nil
